@@ -111,7 +111,9 @@ package pubsub
 // Push: the fast path (no validation at all) is taken only for messages without signature and
 // without applicable validators.
 //@ func (*validation).Push
-//@   property C03 C04
+//@   property C03 C04 C12
+//@   safe
+//@   requires wf: v.p != nil && v.p.logger != nil && msg != nil && msg.Message != nil
 //@   requires msg: msg != nil
 //@   noframe
 //@   ensures fast-path: result == (len(lastret((*validation).getValidators)) == 0 && old(msg.Message.Signature) == nil)
